@@ -1,6 +1,6 @@
 (* Extraction of the C08 "html" model for the correspondence driver. ExtrOcamlBasic only. *)
 Require Import ExtrOcamlBasic.
 From Coq Require Import ZArith.
-Require Import XV.HtmlDefs.
+Require Import XV.GenHtml XV.HtmlDefs XV.HtmlNsDefs.
 (* Z.of_N only so that the type z exists for ocaml/conv.ml *)
-Extraction "extracted/html_model.ml" serialize_html parse_html norm html_ok elem_is attr_is Z.of_N.
+Extraction "extracted/html_model.ml" serialize_html serialize_html_b push_has_namespace_clears_buffer no_decls parse_html norm html_ok elem_is attr_is Z.of_N.
